@@ -189,6 +189,38 @@ theorem scrub_compaction_never_faults {α : Type} (g : α → Option α) (arr : 
     ∃ r, Emu.Proofs.MergeInPlace.compactInPlace g arr = .ok r :=
   ⟨_, Emu.Proofs.MergeInPlace.compactInPlace_eq g arr⟩
 
+/-- `escapeUTF`: for every byte the two table lookups are in range (the table has 16 entries) -/
+theorem escapeNibbles_never_faults (conv : List Nat) (hc : conv.length = 16) (c : Nat) (hb : c < 256) :
+    ∃ r, Bt.GoOps.escapeNibbles conv c = .ok r := by
+  unfold Bt.GoOps.escapeNibbles
+  obtain ⟨h, hh⟩ := goIndex_ok conv ((c / 16 : Nat) : Int) (by omega) (by omega)
+  obtain ⟨l, hl⟩ := goIndex_ok conv ((c % 16 : Nat) : Int) (by omega) (by omega)
+  exact ⟨(h, l), by simp only [bind, Except.bind, pure, Except.pure, hh, hl]⟩
+
+theorem lastChunk_never_faults {α : Type} (chunks : List α) : ∃ r, Bt.GoOps.lastChunk chunks = .ok r := by
+  unfold Bt.GoOps.lastChunk
+  split
+  · rename_i h
+    obtain ⟨c, hc⟩ := goIndex_ok chunks ((chunks.length : Int) - 1) (by omega) (by omega)
+    exact ⟨some c, by simp [hc, bind, Except.bind, pure, Except.pure]⟩
+  · exact ⟨none, rfl⟩
+
+theorem splitByte_nonempty (sep : Nat) (s : List Nat) : 0 < (Gcs.GoOps.splitByte sep s).length := by
+  induction s with
+  | nil => simp [Gcs.GoOps.splitByte]
+  | cons c cs ih =>
+    unfold Gcs.GoOps.splitByte
+    split
+    · simp
+    · split <;> simp
+
+/-- `InitScrubbedMeta` / `InitMetaWithUrls`: the last piece of `strings.Split(filename, ".")` exists for
+    every file name (also the empty one, and names without a dot) -/
+theorem extension_never_faults (filename : List Nat) : ∃ r, Gcs.GoOps.extension filename = .ok r := by
+  unfold Gcs.GoOps.extension
+  have := splitByte_nonempty 46 filename
+  exact goIndex_ok _ _ (by omega) (by omega)
+
 /-- Non-vacuity: an inverted search window, an out-of-order cell list, extreme bounds. -/
 example : Bt.GoOps.deleteRange [5, 9, 1, 7] 8 2 = .ok [5, 9, 1, 7] ∧ Bt.GoOps.deleteRange [9, 7, 5, 1] 5 8 = .ok [9, 1]
     ∧ Bt.GoOps.gcMaxVersions [3, 2, 1] (-5) = .ok [3, 2, 1] ∧ Bt.GoOps.rowOffset [[1, 2], [3]] 2 = .ok [[], [3]] :=
